@@ -80,6 +80,20 @@ def harnesses(tier, seed):
             c = (meta, False, conf, allow, forbid, False, False)
             name = "KL_" + "".join("1" if x else "0" for x in c)
             hs.append(gen.custom_harness("C09", "c09", Schema(name, "K", class_src(*c, last_plain=True)), "mixin"))
+    # hand-written shapes: an init=False field whose name shows up as a key; a three-level hierarchy in which the middle class
+    # re-declares a field with another alias
+    for allow, forbid in itertools.product([False, True], repeat=2):
+        cfg = ("    class Config(BaseConfig):\n        allow_deserialization_not_by_alias = %r\n        forbid_extra_keys = %r\n"
+               % (allow, forbid))
+        src = ("@dataclass\nclass K(DataClassDictMixin):\n    f1: int = field(metadata={'alias': 'mA'})\n"
+               "    comp: int = field(init=False, default=7)\n    f3: int = 30\n" + cfg)
+        hs.append(gen.custom_harness("C09", "c09", Schema("KI_%d%d" % (allow, forbid), "K", src), "mixin",
+                                     "extra=('comp',)", "extra=('comp',)"))
+        src = ("@dataclass\nclass KB(DataClassDictMixin):\n    f1: int = field(metadata={'alias': 'bA'})\n    f2: int = 2\n" + cfg +
+               "\n@dataclass\nclass KM(KB):\n    f1: int = field(metadata={'alias': 'mA'})\n"
+               "\n@dataclass\nclass K(KM):\n    f3: int = 30\n")
+        hs.append(gen.custom_harness("C09", "c09", Schema("KH_%d%d" % (allow, forbid), "K", src), "mixin",
+                                     "extra=('bA',)", "extra=('bA',)"))
     return hs
 
 
